@@ -5,7 +5,7 @@ import numpy as np
 
 from vlib import enc
 
-POS = [(0, 0), (1, 0), (2, 0), (0, 1), (1, 1), (2, 1)]
+POS = [(0, 0), (1, 0), (2, 0), (0, 1), (1, 1), (2, 1), (3, 0)]
 EDGES = {"ring5": [(1, 2), (1, 4), (2, 3), (3, 5), (4, 5)],
          "ladder6": [(1, 2), (1, 4), (2, 3), (3, 6), (4, 5), (5, 6)],
          "mixed6": [(1, 2), (1, 5), (2, 4), (2, 6), (3, 5)],
@@ -37,7 +37,12 @@ def run_geo(c):
     """Replay a TLC behaviour of RewireSM on randomly_rewire_geomodel_I/II/III."""
     from pyunicorn.core import SpatialNetwork, Grid
     import numpy.random as rd
-    n = NN[c["setup"]]
+    n0 = NN[c["setup"]]
+    # every second behaviour is replayed on the network with one more, ISOLATED node at the end (it takes
+    # part in no step of the model; the node count must survive the rewiring)
+    import zlib
+    extra = zlib.crc32(c["case"].encode()) % 2
+    n = n0 + extra
     A = np.zeros((n, n), dtype=int)
     for s, t in EDGES[c["setup"]]:
         A[s - 1, t - 1] = A[t - 1, s - 1] = 1
@@ -50,7 +55,7 @@ def run_geo(c):
     script = Script([(d - 1 + 0.5) / E for d in draws])
     rec = dict(c)
     rec["edges0"] = [[a + 1, b + 1] for a, b in net.graph.get_edgelist()]
-    rec["A0"] = enc.ints(net.adjacency)
+    rec["A0"] = enc.ints(net.adjacency[:n0, :n0])
     saved = rd.random
     rd.random = script.next
     exc = ""
@@ -64,8 +69,13 @@ def run_geo(c):
         rd.random = saved
     rec["exc"] = exc
     rec["used"] = script.used
-    rec["A1"] = enc.ints(net.adjacency)
-    rec["D"] = enc.ints(D)
+    A1 = np.asarray(net.adjacency)
+    rec["extra"] = int(extra)
+    rec["N1"] = int(net.N)
+    rec["shape1"] = [int(v) for v in A1.shape]
+    rec["extra_links"] = int(A1[n0:, :].sum() + A1[:, n0:].sum()) if A1.shape[0] > n0 else 0
+    rec["A1"] = enc.ints(A1[:n0, :n0])
+    rec["D"] = enc.ints(D[:n0, :n0])
     return rec
 
 
@@ -257,7 +267,7 @@ def main(ctx):
 def replay(ctx, rep):
     rec = rep["record"]
     fn = {"geo": "run_geo", "cross": "run_cross", "seeded": "run_seeded"}[rec["blk"]]
-    drop = ("edges0", "A0", "A1", "D", "exc", "used", "X0", "n1", "numbering")
+    drop = ("edges0", "A0", "A1", "D", "exc", "used", "X0", "n1", "numbering", "extra", "N1", "shape1", "extra_links")
     case = {k: v for k, v in rec.items() if k not in drop}
     recs = ctx.run_cases("props.c17." + fn, [case], jobs=1)
     ctx.validate("Val_C17", "Val_C17", recs, nontrivial=_nontrivial)
